@@ -24,11 +24,15 @@ static void rec(s32 iv, s32 ival, u32 kind, u32 n, char *coefs, char *vars, doub
 }
 void vf_rc_lin(u32 kind, u32 n, char *coefs, char *vars, double rhs) { rec(-1, 0, kind, n, coefs, vars, rhs); }
 void vf_rc_ind(u32 bvar, u32 bval, u32 kind, u32 n, char *coefs, char *vars, double rhs) { rec((s32)bvar, (s32)bval, kind, n, coefs, vars, rhs); }
+static double val[MAXVAR];
+/* a variable defined by the converter as an affine expression: recorded as the equality  v - expr == constant  plus a witness rule */
+static s32 def_var = -1; static u32 def_n; static double def_c[MAXT], def_k; static s32 def_v[MAXT];
+u32 vf_rc_defvar(u32 n, char *coefs, char *vars, double k) { u32 id = nvar++; def_var = (s32)id; def_n = n; def_k = k; for (u32 t = 0; t < MAXT; t++) { if (t >= n) break; def_c[t] = ((double *)coefs)[t]; def_v[t] = ((s32 *)vars)[t]; } return id; }
+static double def_value(void) { double s = def_k; for (u32 t = 0; t < MAXT; t++) { if (t >= def_n) break; if (def_c[t] == 1.0) s = s + val[def_v[t]]; else s = s - val[def_v[t]]; } return s; }
 u32 vf_rc_addvars(u32 n, double lb, double ub, u32 is_int) { u32 f = nvar; if (naux == 0) aux_first = f; naux += n; nvar += n; if (!(lb == 0.0 && ub == 1.0 && is_int)) aux_int = 0; return f; }
 #ifndef VF_REAL
 void _ZN3fmt14BasicFormatterIcNS_12ArgFormatterIcEEE6formatENS_15BasicCStringRefIcEE(char *self, char *fmt) { }
 #endif
-static double val[MAXVAR];
 /* all recorded constraints hold at val[] ? (coefficients must be +-1: asserted) */
 static int holds_all(void) {
   int ok = 1;
@@ -38,27 +42,31 @@ static int holds_all(void) {
     for (u32 t = 0; t < MAXT; t++) { if (t >= con[k].n) break; double x = val[con[k].v[t]]; if (con[k].c[t] == 1.0) lhs = lhs + x; else lhs = lhs - x; }
     int h = con[k].kind < 0 ? lhs <= con[k].rhs : con[k].kind > 0 ? lhs >= con[k].rhs : lhs == con[k].rhs;
     if (!h) ok = 0; }
+  if (def_var >= 0 && !(val[def_var] == def_value())) ok = 0;      /* the defining equation of a converter-defined variable */
   return ok;
 }
 void h_reform(void) {
-  const int logical = WHICH <= 1; const u32 nargs = WHICH == 4 ? 1 : NARGS; const u32 R = nargs;      /* result variable index */
+  const int logical = WHICH <= 1 || WHICH == 6; const u32 nargs = (WHICH == 4 || WHICH == 6) ? 1 : WHICH == 5 ? 3 : NARGS; const u32 R = nargs;      /* result variable index */
   /* result variable domain: logical results are binary, possibly fixed; numeric results are free */
   double rlb, rub;
   if (logical) { u32 fx = (u32)vf_ndrange(0, 2); rlb = fx == 2 ? 1.0 : 0.0; rub = fx == 1 ? 0.0 : 1.0; } else { rlb = vf_bits2d(0xfff0000000000000ULL); rub = vf_bits2d(0x7ff0000000000000ULL); }
-  ncon = 0; rec_bad = 0; nvar = nargs + 1; naux = 0; aux_int = 1;
+  ncon = 0; rec_bad = 0; nvar = nargs + 1; naux = 0; aux_int = 1; def_var = -1; def_n = 0;
   u32 rc = w_convert(WHICH, nargs, CTX, rlb, rub);
   VF_ASSERT(rc == 0 && !rec_bad, "conversion succeeds and emits linear / indicator constraints over the item's variables");
   for (u32 k = 0; k < MAXC; k++) { if (k >= ncon) break; for (u32 t = 0; t < MAXT; t++) { if (t >= con[k].n) break;
       VF_ASSERT(con[k].c[t] == 1.0 || con[k].c[t] == -1.0, "coefficient +-1"); VF_ASSERT(con[k].v[t] >= 0 && (u32)con[k].v[t] < nvar, "variable of the item or a new auxiliary variable"); } }
   VF_ASSERT(aux_int && naux <= MAXVAR - nargs - 1, "auxiliary variables are binary");
+  for (u32 t = 0; t < MAXT; t++) { if (t >= def_n) break; VF_ASSERT((def_c[t] == 1.0 || def_c[t] == -1.0) && def_v[t] >= 0 && (u32)def_v[t] < nvar, "defined variable: affine with +-1 coefficients over existing variables"); }
   /* symbolic point: small integers (exact arithmetic); logical arguments / results binary; result inside its domain */
-  for (u32 i = 0; i < MAXVAR; i++) { s32 t = (s32)vf_nd32(); VF_REQUIRE(t >= -1000 && t <= 1000); if (logical || i > R) VF_REQUIRE(t == 0 || t == 1); val[i] = (double)t; }
+  for (u32 i = 0; i < MAXVAR; i++) { s32 t = (s32)vf_nd32(); VF_REQUIRE(t >= -1000 && t <= 1000); if (logical || (i > R && (s32)i != def_var) || (WHICH == 5 && i == 0)) VF_REQUIRE(t == 0 || t == 1); val[i] = (double)t; }
   VF_REQUIRE(val[R] >= rlb && val[R] <= rub);
   double f;
   if (WHICH == 0) { f = 1.0; for (u32 i = 0; i < nargs; i++) if (val[i] == 0.0) f = 0.0; }
   else if (WHICH == 1) { f = 0.0; for (u32 i = 0; i < nargs; i++) if (val[i] != 0.0) f = 1.0; }
   else if (WHICH == 2) { f = val[0]; for (u32 i = 1; i < nargs; i++) if (val[i] < f) f = val[i]; }
   else if (WHICH == 3) { f = val[0]; for (u32 i = 1; i < nargs; i++) if (val[i] > f) f = val[i]; }
+  else if (WHICH == 5) f = val[0] != 0.0 ? val[1] : val[2];
+  else if (WHICH == 6) f = val[0] != 0.0 ? 0.0 : 1.0;
   else f = val[0] < 0 ? -val[0] : val[0];
   double r = val[R];
   /* meaning of the item in its context: positive: r <= f (r true implies f true), negative: r >= f, mixed: r == f */
@@ -66,13 +74,15 @@ void h_reform(void) {
   /* (1) soundness: whatever the auxiliary variables are, the emitted constraints imply the item */
   int o_any = holds_all();
   if (o_any) VF_ASSERT(meaning, "the reformulation admits a point that violates the original constraint (in its context)");
-  /* (2) completeness: every point of the original constraint extends to the reformulation: witness for the auxiliary flags */
-  if (meaning) {
+  /* (2) completeness: every point of the original model (result = function value) extends to the reformulation: witness for the auxiliary
+   * flags.  (A reformulation may be tighter than the context requires, e.g. an equality in a positive context; it must never lose r == f.) */
+  if (r == f) {
     for (u32 j = 0; j < MAXVAR; j++) { if (j >= naux) break; u32 id = aux_first + j; double w = 0.0;
       if (WHICH == 2 || WHICH == 3) { if (j < nargs && val[j] == f) w = 1.0; }          /* flag of an argument attaining the min / max */
       else if (WHICH == 4) w = val[0] <= 0.0 ? 1.0 : 0.0;                               /* abs: flag = 1 selects r <= -x */
       val[id] = w; }
-    VF_ASSERT(holds_all(), "the reformulation cuts off a point that satisfies the original constraint (in its context)");
+    if (def_var >= 0) val[def_var] = def_value();
+    VF_ASSERT(holds_all(), "the reformulation cuts off a point of the original model (result = function value)");
   }
   VF_WITNESS();
 }
